@@ -3,6 +3,6 @@
 # usage: tools_suite.sh <logfile>
 unset BUIDL_VERIF
 cd /repo || exit 2
-/venv/bin/python -m pytest -q -p no:cacheprovider --timeout=900 -n 14 buidl/test > "$1" 2>&1
-/venv/bin/python -m pytest -q -p no:cacheprovider --timeout=900 -n 2 test_multiwallet.py test_singlesweep.py >> "$1" 2>&1
+/venv/bin/python -m pytest -q -p no:cacheprovider -p no:rerunfailures --timeout=900 -n 14 buidl/test > "$1" 2>&1
+/venv/bin/python -m pytest -q -p no:cacheprovider -p no:rerunfailures --timeout=900 -n 2 test_multiwallet.py test_singlesweep.py >> "$1" 2>&1
 grep -E "passed|failed" "$1" | tail -3
